@@ -39,10 +39,19 @@ func genC09(r *core.Rng, id int) *Case {
 	pool = append(pool, "Shared", "Shared")
 	gen.AdversarialNames = pool
 	defer func() { gen.AdversarialNames = nil }()
+	if id%4 == 3 {
+		// a fragment named like another fragment's implementation struct
+		gen.FragmentNameClash(r, s, d)
+	}
 	gen.Decorate(r, s, d, 0.35, 0)
 	defs := d.Defs()
 	if id%3 == 1 {
 		if tw := gen.NestedTwinOp(r, s, "TwinType"); tw != nil {
+			defs = append(defs, tw)
+		}
+	}
+	if id%3 == 2 {
+		if tw := gen.InlineTwinOp(r, s, "TwinIface"); tw != nil {
 			defs = append(defs, tw)
 		}
 	}
